@@ -1,0 +1,67 @@
+//go:build verif
+
+package xrand
+
+// Contracts for the deductive verifier in /verif (properties C09 and C19). Only part of the build
+// under the tag `verif`. The random source and the floating-point functions are assumed contracts;
+// sampler.Next (floating-point skip computation) is a TRUSTED contract: it is assumed, not proved,
+// and reported as such. Uniformity of the samples is probabilistic and not decidable here.
+
+//@ ext xrand.randRand.Float64(r) (f)
+//@   ispure
+//@ ext xrand.randRand.Intn(r, n) (x)
+//@   ispure
+//@   panics when n <= 0
+//@   ensures 0 <= x && x < n
+//@ ext xrand.randRand.Shuffle(r, n, swap)
+//@   repeats swap
+//@   repeatargs 0 <= cbarg0 && cbarg0 < n && 0 <= cbarg1 && cbarg1 < n
+//@   panics when n < 0
+
+//@ pred permOf(a, p, q) = (forall k int {p[k]} :: 0 <= k && k < len(a) ==> 0 <= p[k] && p[k] < len(a) && a[k] == old(a[p[k]]) && q[p[k]] == k)
+//@   && (forall m int {q[m]} :: 0 <= m && m < len(a) ==> 0 <= q[m] && q[m] < len(a) && p[q[m]] == m)
+
+//@ func rShuffle
+//@   props C19
+//@   modifies elems(a)
+//@   ghostinit p := lambda k int :: k
+//@   ghostinit q := lambda k int :: k
+//@   loop Shuffle: ghost p := store(store(p, cbarg0, p[cbarg1]), cbarg1, p[cbarg0])
+//@   loop Shuffle: ghost q := store(store(q, p[cbarg0], cbarg0), p[cbarg1], cbarg1)
+//@   loop Shuffle: invariant permOf(a, p, q)
+//@   loop Shuffle: invariant forall k int {row(a)[k]} :: k < off(a) || k >= off(a) + len(a) ==> row(a)[k] == old(row(a)[k])
+//@   ensures permOf(a, p, q)
+//@   ensures forall k int {row(a)[k]} :: k < off(a) || k >= off(a) + len(a) ==> row(a)[k] == old(row(a)[k])
+
+// TRUSTED (bounded stand-in per DESIGN.md 4.13): positions handed out are strictly increasing, the
+// first k calls are (i, i), the replace slot is inside the reservoir.
+//@ func sampler.Next
+//@   trusted
+//@   props C19
+//@   requires s.k >= 0
+//@   modifies s.i, s.first, s.w
+//@   ensures s.k == old(s.k) && s.r == old(s.r)
+//@   ensures old(s.i) < s.k ==> result0 == old(s.i) && result1 == old(s.i) && s.i == old(s.i) + 1
+//@   ensures old(s.i) >= s.k ==> result0 > old(s.i) - 1 && 0 <= result1 && (result1 < s.k || (s.k == 0 && result1 == 0)) && (result0 < 9223372036854775807 ==> s.i == result0)
+//@   ensures result0 >= 0 && (s.k == 0 ==> result0 == 9223372036854775807)
+
+//@ ext math.Exp(x) (y)
+//@   ispure
+//@ ext math.Log(x) (y)
+//@   ispure
+//@ ext math.Floor(x) (y)
+//@   ispure
+//@ ext math.IsInf(x, sign) (b)
+//@   ispure
+//@ ext math.IsNaN(x) (b)
+//@   ispure
+
+//@ func rSampleStream
+//@   props C09 C19
+//@   requires stInv(s) && k >= 0 && s.n < 9223372036854775807
+//@   modifies s.pos, s.pulls, s.lasterr, s.closes
+//@   loop 0: invariant stInv(s) && len(out) == k && fresh(out) && samp.k == k && 0 <= i && i <= s.pos
+//@   loop 1: invariant stInv(s) && len(out) == k && fresh(out) && samp.k == k && 0 <= replace && (replace < k || k == 0) && 0 <= i && i <= s.pos && (k == 0 ==> next == 9223372036854775807)
+//@   ensures C09: s.closes == 1
+//@   ensures result1 != nil ==> result0 == nil && result1 == s.lasterr
+//@   ensures result1 == nil ==> len(result0) <= k && s.pos == s.n
